@@ -519,8 +519,8 @@ const FIELD_NAMES: [&str; 29] = [
     "type", "in", "ref", "match", "loop", "yield", "Self", "super", "crate",
 ];
 const LINK_NAMES: [&str; 10] = ["owner", "friend", "friends", "bestFriend", "pets", "author", "items", "parent", "children", "related"];
-const ENUM_VALUES: [&str; 16] = [
-    "NEWHOPE", "EMPIRE", "JEDI", "red", "Green", "dark_blue", "lightBlue", "ON", "OFF", "type", "self", "where", "Self", "_x", "A1", "async",
+const ENUM_VALUES: [&str; 18] = [
+    "NEWHOPE", "EMPIRE", "JEDI", "red", "Green", "dark_blue", "lightBlue", "ON", "OFF", "type", "self", "where", "Self", "_x", "A1", "async", "Other", "OTHER",
 ];
 
 fn pick_distinct(rng: &mut Rng, pool: &[&str], n: usize) -> Vec<String> {
